@@ -130,7 +130,7 @@ def get_raw(cfg="dbg"):
         return json.load(fh)
 
 
-def _prune(keep=12):
+def _prune(keep=80):
     d = os.path.join(CACHE, "facts")
     fs = sorted((os.path.getmtime(os.path.join(d, f)), f) for f in os.listdir(d) if f.endswith(".json"))
     for _, f in fs[:-keep]:
